@@ -276,6 +276,10 @@ func (p vfPred) fn() func([]byte, uint32) bool {
 	case "limitlt":
 		n := uint32(p.N)
 		return func(_ []byte, limit uint32) bool { return limit != 0 && limit < n }
+	case "limitzero": // a format that can only be told from the whole file
+		return func(_ []byte, limit uint32) bool { return limit == 0 }
+	case "limitnonzero":
+		return func(raw []byte, limit uint32) bool { return limit != 0 && uint32(len(raw)) <= limit }
 	case "always":
 		return func([]byte, uint32) bool { return true }
 	}
@@ -293,6 +297,12 @@ func vfGenPred(t *rapid.T) vfPred {
 	case 6:
 		return vfPred{Kind: "minlen", N: rapid.SampledFrom([]int{0, 1, 8, 30, 100, 600}).Draw(t, "ml")}
 	case 7:
+		switch rapid.IntRange(0, 2).Draw(t, "limkind") {
+		case 0:
+			return vfPred{Kind: "limitzero"}
+		case 1:
+			return vfPred{Kind: "limitnonzero"}
+		}
 		return vfPred{Kind: "limitlt", N: rapid.SampledFrom([]int{1, 64, 4000}).Draw(t, "ll")}
 	case 8:
 		return vfPred{Kind: "always"}
@@ -393,7 +403,7 @@ func vfGenExt(t *rapid.T, idx int, earlier []vfExt) vfExt {
 		for _, x := range earlier {
 			// aliases are registered in normal form (lower case, no parameters): Is compares them
 			// verbatim with the normalised argument
-			if x.Mime == strings.ToLower(x.Mime) && !strings.Contains(x.Mime, ";") {
+			if x.Mime == strings.ToLower(x.Mime) && !strings.ContainsAny(x.Mime, "; \t\r\n\x7f") {
 				pool = append(pool, x.Mime)
 			}
 		}
@@ -438,6 +448,11 @@ func vfGenExt(t *rapid.T, idx int, earlier []vfExt) vfExt {
 		}
 	case 2:
 		e.Mime = rapid.SampledFrom([]string{"text/html", "application/zip", "application/json", "text/plain", "image/png"}).Draw(t, "builtin")
+	}
+	// the alias list may repeat the primary name (anywhere in the list)
+	if rapid.IntRange(0, 9).Draw(t, "ownnamealias") == 0 {
+		p := rapid.IntRange(0, len(e.Aliases)).Draw(t, "ownpos")
+		e.Aliases = append(e.Aliases[:p:p], append([]string{e.Mime}, e.Aliases[p:]...)...)
 	}
 	return e
 }
